@@ -130,9 +130,13 @@ def run(F, R, tier):
     for wrapper, inner in (("redirector::lookup_audit", "BpfObject::lookup_audit"), ("redirector::remove_audit", "BpfObject::remove_audit_map_entry")):
         fn = R.anchor(AP + wrapper, "C07.R2")
         if fn:
-            B = mir.Body(fn, F)
-            cs = B.calls_named(inner)
-            ok = len(cs) == 1 and B.origins(cs[0][3]["args"][1]) == {("param", "source_port", ())}
+            # the call may sit in a closure handed to a shared "with the eBPF object" helper
+            from rules.c02 import descendants
+            cs = []
+            for f_ in [fn] + descendants(F, fn["id"]):
+                B = mir.Body(f_, F)
+                cs += [(B, c) for c in B.calls_named(inner)]
+            ok = len(cs) == 1 and cs[0][0].origins(cs[0][1][3]["args"][1]) == {("param", "source_port", ())}
             R.check(ok, "C07.R2", "C07.R2:%s:passes-port" % fn["id"], "%s:%s" % (fn["file"], fn["line"]),
                     "%s hands its source_port to %s" % (wrapper, inner))
 
@@ -243,7 +247,11 @@ def run(F, R, tier):
     from lib import contracts
     R.rule("C07.R4", "failure sources of remove_audit: eBPF object/map missing or the kernel's delete error - nothing else")
     srcs, seen4 = contracts.failure_sources(F, AP + "redirector::remove_audit", lambda c: c.startswith(AP + "redirector::"))
-    got = {(f.replace(AP, "").replace("::{closure#0}", ""), s) for f, s in srcs}
+    # the wrapper layer in redirector.rs counts as one place, however it is split into helpers
+    def layer(f):
+        f = f.replace(AP, "").split("::{closure")[0]
+        return f if "BpfObject::" in f else "redirector::remove_audit"
+    got = {(layer(f), s) for f, s in srcs}
     want = {("redirector::remove_audit", "local Err(Bpf(NullBpfObject))"),
             ("redirector::linux::BpfObject::remove_audit_map_entry", "local Err(Bpf(GetBpfMap))"),
             ("redirector::linux::BpfObject::remove_audit_map_entry", "local Err(Bpf(LoadBpfMapHashMap))"),
@@ -274,7 +282,11 @@ def run(F, R, tier):
     # the mutex around the eBPF object is taken with a blocking lock() on the consume path
     ra = F.body_of(AP + "redirector::remove_audit")
     if ra:
-        Br = mir.Body(ra, F)
-        locks = [q.base_name(c[1]) for c in Br.calls if c[1] != mir.POLL and "Mutex" in q.base_name(c[1] or "")]
+        locks = []
+        for f_ in sorted(seen4):
+            if "BpfObject::" in f_ or f_ not in F.fns:
+                continue
+            Br = mir.Body(F.fns[f_], F)
+            locks += [q.base_name(c[1]) for c in Br.calls if c[1] != mir.POLL and "Mutex" in q.base_name(c[1] or "")]
         R.check(locks == ["std::sync::Mutex::lock"], "C07.R4", "C07.R4:remove_audit:blocking-lock", "%s:%s" % (ra["file"], ra["line"]),
                 "remove_audit takes the eBPF object's mutex with lock() (waits, never gives up)", "mutex operations in remove_audit: %s" % locks)
